@@ -289,14 +289,17 @@ func genGE(cfg *config, r *rng, i int, s *sink) string {
 			s.count("ge.line.origin")
 		}
 		lat2, lon2 := offsetPoint(lat, lon, bearing, length, radius)
+		meridian := false
 		if r.chance(1, 6) {
 			// exactly north-south or east-west: the two ends share a coordinate bit for bit
 			deg := length / radius * 180 / math.Pi
 			switch r.intn(4) {
 			case 0:
 				bearing, lat2, lon2 = 0, lat+deg, lon
+				meridian = true
 			case 1:
 				bearing, lat2, lon2 = 180, lat-deg, lon
+				meridian = true
 			case 2:
 				bearing, lat2, lon2 = 90, lat, lon+deg/math.Cos(lat*math.Pi/180)
 			default:
@@ -306,6 +309,7 @@ func genGE(cfg *config, r *rng, i int, s *sink) string {
 				lat2 = lat
 				lon2 = lon + deg
 				bearing = 90
+				meridian = false
 			}
 			length = gcDistLL(lat, lon, lat2, lon2) * radius
 			s.count("ge.line.cardinal")
@@ -404,6 +408,12 @@ func genGE(cfg *config, r *rng, i int, s *sink) string {
 				return x
 			}
 			lon, lon2, po = wrap(lon), wrap(lon2), wrap(po)
+		}
+		if meridian && !antimeridian && lat2 != lat && r.chance(1, 3) {
+			// a position exactly in line with a north-south line (the same longitude, bit for bit):
+			// before it, on it or beyond it — its cross track is exactly zero
+			pl, po = lat+(lat2-lat)*along/length, lon
+			s.count("ge.pos.in_line")
 		}
 		if !antimeridian && r.chance(1, 15) {
 			// a position that IS an end of the line, bit for bit (a reading taken at the marker)
@@ -687,6 +697,32 @@ func genGE(cfg *config, r *rng, i int, s *sink) string {
 			s.count("ge.ix.pole_end")
 		}
 		if r.chance(1, 15) {
+			// a figure whose four end points average to exactly (0, 0) — latitudes and longitudes that
+			// are multiples of a quarter degree and cancel — without being symmetric about that point:
+			// the crossing is wherever it is (not given: only the azimuth test and the decision apply)
+			q := func(lim int) float64 { return float64(r.intn(2*lim*4+1)-lim*4) / 4 }
+			for try := 0; try < 50; try++ {
+				p1, q1, p2, q2, p3, q3 := q(3), q(3), q(3), q(3), q(3), q(3)
+				p4, q4 := -((p1+p2)+p3), -((q1+q2)+q3)
+				// plane estimate of the crossing parameters (a few degrees around the equator)
+				dax, day, dbx, dby := q2-q1, p2-p1, q4-q3, p4-p3
+				den := dax*dby - day*dbx
+				if math.Abs(den) < 0.5 || math.Hypot(dax, day) < 1 || math.Hypot(dbx, dby) < 1 {
+					continue
+				}
+				t := ((q3-q1)*dby - (p3-p1)*dbx) / den
+				u := ((q3-q1)*day - (p3-p1)*dax) / den
+				if t < 0.15 || t > 0.85 || u < 0.15 || u > 0.85 || math.Abs(p4) > 4 || math.Abs(q4) > 4 {
+					continue
+				}
+				if math.Abs(q1+t*dax)+math.Abs(p1+t*day) < 0.1 {
+					continue // the crossing itself is at (0,0): says nothing
+				}
+				s.count("ge.ix.mean_origin")
+				return fmt.Sprintf("ix %s %s 1 1", hexFloats(p1, q1, p2, q2, p3, q3, p4, q4), hexFloats(math.NaN(), math.NaN()))
+			}
+		}
+		if r.chance(1, 15) {
 			// a short east-west segment whose ends both lie on the 45th parallel to the last bit, crossed
 			// half way by a meridian segment (between its ends the geodesic leaves the parallel by
 			// d^2 tan(lat) / 8R: 0.05 mm for 50 m) — recorded finding: the geodesic library at latitude 45
@@ -729,6 +765,12 @@ func corpusGE(cfg *config) []string {
 	onl(2, -10, -0.75, 50.857928, -0.752664, 50.857939, -0.752523)
 	onl(2, -23.7014, -0.7503, 50.85, -0.7503, 50.85, -0.7503)
 	onl(0.5, 50.86, 179.25, 50.857928, -0.752664, 50.857828, -0.752664)
+	// positions exactly in line with a meridian line, beyond its ends and on it
+	past = append(past, "dtl "+hexFloats(R, 50.007, 8, 50, 8, 50.005, 8, gcSegDistLL(50.007, 8, 50, 8, 50.005, 8, R)),
+		"dtl "+hexFloats(R, 49.999, 8, 50, 8, 50.005, 8, gcSegDistLL(49.999, 8, 50, 8, 50.005, 8, R)),
+		"dtl "+hexFloats(R, 0, 10.001, 0, 10, 0, 10.0005, gcSegDistLL(0, 10.001, 0, 10, 0, 10.0005, R)))
+	onl(1, 50.0051, 8, 50, 8, 50.005, 8)
+	onl(1, 50.002, 8, 50, 8, 50.005, 8)
 	// lines across the meridians 90 degrees west and east (a position on the line, one beside it
 	// within the tolerance, one beyond an end)
 	onl(1, 29.88, -90.000020721, 29.88, -90.000103603, 29.88, -89.999896397)
@@ -765,6 +807,8 @@ func corpusGE(cfg *config) []string {
 		"rt " + hexFloats(10, 20, 30, 65, 5.2e6),
 		"tr " + hexFloats(48, 2, 1e6, 1e6),
 		"tr " + hexFloats(10, 20, 5e5, -5e5),
+		// end points that average to exactly (0, 0), crossing elsewhere
+		"ix " + hexFloats(-2, -3, 1, 2, 2, -1, -1, 2) + " " + hexFloats(0.249963814, 0.750454632) + " 1 1",
 		// … and for a segment whose ends both lie on the 45th parallel
 		"ix " + hexFloats(44.9995, 7, 45.0005, 7, 45, 6.9995, 45, 7.0005) + " " + hexFloats(45, 7) + " 1 1",
 	}...)
